@@ -433,7 +433,7 @@ end JlsH
 namespace JM
 open PC
 
-/-! ## lossless14sv1 (after FIXME-SOF: a second frame header is rejected) -/
+/-! ## lossless14sv1 (after 7825a71: a second frame header is rejected) -/
 
 theorem sv1Comps_spec (w h n : Nat) (data : Bytes) (acc : List (Nat × Nat)) (al : List Nat) :
     (∀ a ∈ (sv1Comps w h n data acc al).2, a ∈ al ∨ a = 8 * (w * h)) ∧
@@ -763,7 +763,7 @@ end JM
 namespace JM
 open PC
 
-/-! ## baseline (after FIXME-SOF) -/
+/-! ## baseline (after 7825a71) -/
 
 theorem divCeil_comp_le (w H M cw : Nat) (hH : H ≤ M) (hM : 1 ≤ M) (hw : 1 ≤ w)
     (h : divCeil (w * H) (M * 8) = some cw) : cw ≤ w := by
